@@ -1,6 +1,6 @@
 SPECIFICATION Spec
 CONSTANTS
-  Shapes = {11, 111, 22, 122, 23, 123}
+  Shapes = {11, 111, 22, 122, 23, 123, 34, 44}
   RootFirsts = {0, 1}
   Emit = TRUE
 INVARIANTS StepBound NoDup StackBound EmitCase
